@@ -28,9 +28,12 @@ META = {
                   "all_absent_no_step (counter unchanged iff selector all-false, else +1), present_block_uses_own_state and "
                   "present_block_noninterference (whole runs), group_run_eq_blockwise (refinement to the cache-free specification), "
                   "merge_and_block_spec, generate_pairwise_indices_spec, C04_checker_sound. All proved in full (nothing _partial). "
-                  "The model is tied to /repo by running the real optimizer (Shampoo/SOAP x grafting None/SGD/AdaGrad/RMSprop/Adam x momentum x "
-                  "beta1 x weight decay; 2-5 parameters with equal-shaped blocks, blocked parameters) over 6-12 step histories and comparing, "
-                  "inside coqc, masked lists as index lists, selectors, counters, changed-flags of every tensor and bit-identity with a reference run.",
+                  "The model is tied to /repo by running the real optimizer (Shampoo/SOAP x grafting None/SGD/AdaGrad/RMSprop/Adam x momentum/dampening x "
+                  "beta1/beta3 x weight decay x dtype pairings f64/f32/bf16/f16 x gradient classes (generic, exactly zero, tiny, structured, non-contiguous); "
+                  "1-5 parameters in one or two parameter groups, equal-shaped blocks, blocked parameters, mixed tensor orders) over 6-12 step histories "
+                  "and comparing, inside coqc, per group: masked lists as index lists, selectors, counters, changed-flags of every tensor and bit-identity with a "
+                  "reference run whose other parameters hold different data and (3 of 4 cases) follow a different presence history. "
+                  "The classes generated in a run are counted under coverage.quantifier_audit.",
     "level_note": "Trusted: Coq kernel+vm_compute; the hand-written model (checked against the code only on the generated configurations "
                   "and histories; default Distributor only - the model's distributor selector is generic but other distributors are tied by C06-C08); "
                   "tensor identity observed through data_ptr/id; the per-block computation itself is abstract here (C01 instantiates it). "
@@ -135,7 +138,7 @@ def finish_spec(rng, spec: dict) -> dict:
         spec["pdtype"] == "float64" and spec["fdtype"] == "float64" and spec["grad_kind"] in ("random", "noncontig")
         and spec["freq"] == 1 and spec["lr"] > 0 and not spec["ignored_dims"] and spec["inv_root_override"] == 0
         and not (spec["graft"] is None and spec["precond"] == "shampoo" and spec["start"] != 1)
-        and not spec["group_lrs"])
+        and not spec["group_lrs"] and not spec["dampening"] and spec["beta3"] is None)
     return spec
 
 
@@ -203,9 +206,10 @@ def gen_targeted(rng, start_idx: int) -> list[dict]:
     for _ in range(2):
         add("single_parameter_group", n=1, shapes=[[6, 3]], focus=[T], history=[[T], [F], [F], [T], [T], [F]])
     for pd, fd in (("float32", "float32"), ("float32", "float64"), ("float64", "float32"), ("bfloat16", "float32"), ("float16", "float32"),
-                   ("bfloat16", "float64"), ("float32", "float32"), ("bfloat16", "float32")):
-        add(f"dtype_{pd}_{fd}", kind=rng.choice(("alternating", "change_every_step", "random")), pdtype=pd, fdtype=fd)
-    for gk in ("zero_param", "zero_block", "zero_param", "zero_block", "tiny", "tiny", "diag", "rank1", "deadrow", "constant"):
+                   ("bfloat16", "float64"), ("float32", "float32"), ("bfloat16", "float32")) * 2:
+        extra = {"precond": "shampoo", "graft": rng.choice(("sgd", "adagrad")), "start": 1} if pd == "float16" else {}   # SOAP overflows binary16
+        add(f"dtype_{pd}_{fd}", kind=rng.choice(("alternating", "change_every_step", "random")), pdtype=pd, fdtype=fd, **extra)
+    for gk in ("zero_param", "zero_block", "zero_param", "zero_block", "tiny", "tiny", "diag", "rank1", "deadrow", "constant") * 2:
         add(f"grad_{gk}", kind=rng.choice(("alternating", "change_every_step", "random")), grad_kind=gk)
     for _ in range(3):
         add("grad_noncontig", kind=rng.choice(("alternating", "change_every_step")), grad_kind="noncontig", merge=False,
@@ -238,13 +242,27 @@ def make_optimizer(spec, params):
 
     graft = {None: None, "sgd": st.SGDGraftingConfig(), "adagrad": st.AdaGradGraftingConfig(epsilon=1e-8),
              "rmsprop": st.RMSpropGraftingConfig(beta2=0.9, epsilon=1e-8), "adam": st.AdamGraftingConfig(beta2=0.9, epsilon=1e-8)}[spec["graft"]]
-    pc = {"shampoo": st.DefaultShampooConfig, "soap_eigh": st.DefaultEigenvalueCorrectedShampooConfig, "soap_qr": st.DefaultSOAPConfig}[spec["precond"]]
+    ign = list(spec["ignored_dims"])
+    pc = {"shampoo": st.ShampooPreconditionerConfig(ignored_dims=ign),
+          "soap_eigh": st.EigenvalueCorrectedShampooPreconditionerConfig(ignored_dims=ign),
+          "soap_qr": st.EigenvalueCorrectedShampooPreconditionerConfig(amortized_computation_config=st.DefaultSOAPConfig.amortized_computation_config, ignored_dims=ign),
+          }[spec["precond"]]
+    groups = []
+    for g, pidx in enumerate(spec["groups"]):
+        d = {"params": [params[p] for p in pidx]}
+        if spec["group_lrs"]:
+            d["lr"] = spec["group_lrs"][g]
+        groups.append(d)
+    kw = {}
+    if spec["beta3"] is not None:
+        kw["beta3"] = spec["beta3"]
     return DistributedShampoo(
-        params, lr=spec["lr"], betas=(spec["beta1"], spec["beta2"]), epsilon=1e-8, momentum=spec["momentum"],
-        weight_decay=spec["wd"], max_preconditioner_dim=spec["maxdim"], precondition_frequency=1,
+        groups, lr=spec["lr"], betas=(spec["beta1"], spec["beta2"]), epsilon=1e-8, momentum=spec["momentum"], dampening=spec["dampening"],
+        weight_decay=spec["wd"], max_preconditioner_dim=spec["maxdim"], precondition_frequency=spec["freq"],
         start_preconditioning_step=spec["start"], use_nesterov=spec["nesterov"], use_bias_correction=spec["bias"],
         use_decoupled_weight_decay=spec["decoupled"], grafting_config=graft, use_merge_dims=spec["merge"],
-        preconditioner_dtype=torch.float64, preconditioner_config=pc)
+        inv_root_override=spec["inv_root_override"],
+        preconditioner_dtype=getattr(torch, spec["fdtype"]), preconditioner_config=pc, **kw)
 
 
 def walk_tensors(obj, path=()):
@@ -263,39 +281,31 @@ def walk_tensors(obj, path=()):
             yield from walk_tensors(getattr(obj, f.name), path + (f.name,))
 
 
-class Probe:
-    """One optimizer instance with everything needed to observe it from outside."""
+class GroupView:
+    """One parameter group of one optimizer instance, with everything needed to observe it from outside."""
 
-    def __init__(self, spec, values):
-        import torch
-        from distributed_shampoo import shampoo_types as st
-        self.st = st
-        self.params = [torch.nn.Parameter(v.clone()) for v in values]
-        self.opt = make_optimizer(spec, self.params)
-        assert len(self.opt._per_group_state_lists) == 1
-        self.sl = self.opt._per_group_state_lists[0]
+    def __init__(self, probe, g, pidx):
+        st = probe.st
+        self.probe, self.g, self.pidx, self.st = probe, g, list(pidx), st
+        self.params = [probe.params[p] for p in pidx]
+        self.sl = probe.opt._per_group_state_lists[g]
         self.dist = self.sl[st.DISTRIBUTOR]
         self.nbs = list(self.dist._global_num_blocks_per_param)
         self.blocks = list(self.dist._global_blocked_params)          # default Distributor: local = global
         assert tuple(self.dist._distributor_selector) == (True,) * len(self.blocks)
-        assert self.opt.state[self.params[0]][st.STEP] is self.sl[st.STEP]
-        self.block_owner = [(p, j) for p, nb in enumerate(self.nbs) for j in range(nb)]
+        assert probe.opt.state[self.params[0]][st.STEP] is self.sl[st.STEP]
+        self.block_owner = [(k, j) for k, nb in enumerate(self.nbs) for j in range(nb)]   # (position in the group, block)
 
     def block_state(self, i):
-        p, j = self.block_owner[i]
-        return self.opt.state[self.params[p]][f"block_{j}"]
+        k, j = self.block_owner[i]
+        return self.probe.opt.state[self.params[k]][f"block_{j}"]
 
     def state_tensors(self, i):
         return [(path, t) for path, t in walk_tensors(self.block_state(i))]
 
     def leftover_state(self):
         """State entries that are not per-block (only the group counter is expected)."""
-        out = []
-        for p in self.params:
-            for k in self.opt.state[p]:
-                if not str(k).startswith("block_"):
-                    out.append(str(k))
-        return out
+        return [str(k) for p in self.params for k in self.probe.opt.state[p] if not str(k).startswith("block_")]
 
     def snapshot(self):
         snap = {"params": [(p.detach().clone(), p.data_ptr()) for p in self.params], "blocks": []}
@@ -314,6 +324,7 @@ class Probe:
         return out
 
     def masked_lists(self):
+        from itertools import compress
         st = self.st
         tkey = lambda t: (t.data_ptr(), tuple(t.shape))  # noqa: E731
         dparams = self._index_in(self.dist._local_masked_blocked_params, self.dist._local_blocked_params, tkey)
@@ -335,20 +346,67 @@ class Probe:
         if st.MOMENTUM_LIST in self.sl:
             comps.append(self._index_in(self.sl[st.MASKED_MOMENTUM_LIST], self.sl[st.MOMENTUM_LIST], tkey))
             names.append("momentum")
-        # value lists that carry no identity: only their length can be observed
-        lens_ok = all(len(getattr(spl, a)) == len(spl._masked_kronecker_factors_list)
-                      for a in ("_masked_order_list", "_masked_root_list", "_masked_preconditioned_dims_selector_list") if hasattr(spl, a))
+        # value lists (tensor order, root, preconditioned-dims selector) carry no identity: they must equal the
+        # compress of their local list by the selector the Kronecker-factor list was compressed with
+        ksel = [i in comps[0] for i in range(len(spl._local_kronecker_factors_list))]
+        lens_ok = True
+        for a in ("order", "root", "preconditioned_dims_selector"):
+            m, l = getattr(spl, f"_masked_{a}_list", None), getattr(spl, f"_local_{a}_list", None)
+            if m is not None and l is not None:
+                lens_ok = lens_ok and tuple(m) == tuple(compress(l, ksel))
         return dparams, oparams, comps, names, lens_ok
 
 
+class Probe:
+    def __init__(self, spec, values):
+        import torch
+        from distributed_shampoo import shampoo_types as st
+        self.st = st
+        self.params = [torch.nn.Parameter(v.clone()) for v in values]
+        self.opt = make_optimizer(spec, self.params)
+        assert len(self.opt._per_group_state_lists) == len(spec["groups"])
+        self.groups = [GroupView(self, g, pidx) for g, pidx in enumerate(spec["groups"])]
+
+
+def make_grad(kind, shape, rnd, rng_t, dtype):
+    """One gradient of the requested class (float64 master copy, cast by the caller)."""
+    import torch
+    g = rnd(shape)
+    if kind == "zero_param":          # a PRESENT gradient that is exactly zero
+        if torch.rand((), generator=rng_t).item() < 0.4:
+            g = torch.zeros_like(g)
+    elif kind == "zero_block":        # zero on the leading part only: some block of the parameter sees an exactly-zero gradient
+        if torch.rand((), generator=rng_t).item() < 0.5 and g.dim() >= 1 and g.shape[0] >= 1:
+            k = max(1, g.shape[0] // 2)
+            g[:k] = 0
+    elif kind == "tiny":
+        g = g * 2.0 ** -17             # ~1e-5, exactly representable
+    elif kind == "diag":              # exactly diagonal (where the tensor is a matrix): diagonal Kronecker factors
+        if g.dim() == 2:
+            m = torch.zeros_like(g)
+            for i in range(min(g.shape)):
+                m[i, i] = g[i, i]
+            g = m
+    elif kind == "rank1":
+        if g.dim() == 2:
+            g = torch.outer(g[:, 0], g[0, :].sign()) if g.shape[1] else g
+    elif kind == "deadrow":           # a dead coordinate: one row never receives signal
+        if g.dim() >= 1 and g.shape[0] > 1:
+            g[0] = 0
+    elif kind == "constant":
+        g = torch.full_like(g, 0.5)
+    return g
+
+
 def impl_run(spec) -> dict:
-    """Run case `spec` (run A and its reference run B in lockstep); returns the observations."""
+    """Run case `spec` (run A and its reference run B in lockstep); returns, per parameter group, the observations."""
     import logging
     import torch
     logging.disable(logging.CRITICAL)
     torch.set_num_threads(1)
     n = len(spec["shapes"])
     gen = torch.Generator().manual_seed(spec["seed"])
+    dtype = getattr(torch, spec["pdtype"])
 
     def rnd(shape):
         # small dyadic rationals, never zero
@@ -356,57 +414,78 @@ def impl_run(spec) -> dict:
         s = torch.randint(0, 2, shape, generator=gen, dtype=torch.int64).to(torch.float64) * 2 - 1
         return t * s
 
-    valsA = [rnd(sh) for sh in spec["shapes"]]
+    def layout(g):
+        # a gradient with non-default memory layout (same values): transposed storage for matrices, strided storage otherwise
+        if spec["grad_kind"] != "noncontig":
+            return g.clone()
+        if g.dim() == 2:
+            return g.t().contiguous().t()
+        big = torch.zeros(tuple(2 * d for d in g.shape), dtype=g.dtype)
+        view = big[tuple(slice(None, None, 2) for _ in g.shape)]
+        view.copy_(g)
+        return view
+
+    valsA = [rnd(sh).to(dtype) for sh in spec["shapes"]]
     # the reference run's other parameters differ from run A in every element (and stay apart: steps are small)
-    valsB = [valsA[p] if spec["focus"][p] else valsA[p] + 8.0 + rnd(spec["shapes"][p]).abs() for p in range(n)]
-    out = {"error": None, "steps": []}
+    valsB = [valsA[p] if spec["focus"][p] else (valsA[p].double() + 8.0 + rnd(spec["shapes"][p]).abs()).to(dtype) for p in range(n)]
+    out = {"error": None, "groups": []}
     try:
         A, B = Probe(spec, valsA), Probe(spec, valsB)
-        out["nbs"] = A.nbs
-        out["block_shapes"] = [list(b.shape) for b in A.blocks]
-        out["leftover_state"] = A.leftover_state()
-        out["comp_names"] = None
-        for t, present in enumerate(spec["history"]):
+        for gv in A.groups:
+            out["groups"].append({"nbs": gv.nbs, "block_shapes": [list(b.shape) for b in gv.blocks], "block_orders": [b.dim() for b in gv.blocks],
+                                  "leftover_state": gv.leftover_state(), "comp_names": None, "steps": [], "pidx": gv.pidx,
+                                  "history": [[row[p] for p in gv.pidx] for row in spec["history"]],
+                                  "historyB": [[row[p] for p in gv.pidx] for row in spec["historyB"]],
+                                  "focus": [spec["focus"][p] for p in gv.pidx]})
+        zero_present = 0
+        for t, (present, presentB) in enumerate(zip(spec["history"], spec["historyB"])):
             for p in range(n):
-                if present[p]:
-                    gA = rnd(spec["shapes"][p])
-                    gB = gA if spec["focus"][p] else rnd(spec["shapes"][p])
-                    A.params[p].grad, B.params[p].grad = gA.clone(), gB.clone()
+                gA = make_grad(spec["grad_kind"], spec["shapes"][p], rnd, gen, dtype) if (present[p] or (presentB[p] and spec["focus"][p])) else None
+                A.params[p].grad = layout(gA.to(dtype)) if present[p] else None
+                if presentB[p]:
+                    gB = gA if spec["focus"][p] else make_grad(spec["grad_kind"], spec["shapes"][p], rnd, gen, dtype)
+                    B.params[p].grad = layout(gB.to(dtype))
                 else:
-                    A.params[p].grad, B.params[p].grad = None, None
-            before = A.snapshot()
+                    B.params[p].grad = None
+                if present[p] and not bool(gA.any()):
+                    zero_present += 1
+            before = [gv.snapshot() for gv in A.groups]
             A.opt.step()
             B.opt.step()
-            ob = {"counter": int(A.sl[A.st.STEP].item()), "counterB": int(B.sl[B.st.STEP].item())}
-            ob["pchg"] = [not torch.equal(v0, p.detach()) for (v0, _), p in zip(before["params"], A.params)]
-            pptr = [p.data_ptr() == ptr0 for (_, ptr0), p in zip(before["params"], A.params)]
-            vchg, schg, ptr, same = [], [], [], []
-            for i, blk in enumerate(A.blocks):
-                v0, bptr0, sts0 = before["blocks"][i]
-                vchg.append(not torch.equal(v0, blk))
-                now = A.state_tensors(i)
-                ok = blk.data_ptr() == bptr0 and pptr[A.block_owner[i][0]] and len(now) == len(sts0)
-                flags = []
-                for (path0, t0, ptr0, id0), (path1, t1) in zip(sts0, now):
-                    ok = ok and path0 == path1 and t1.data_ptr() == ptr0 and id(t1) == id0
-                    flags.append(not (t0.shape == t1.shape and torch.equal(t0, t1)))
-                schg.append(flags)
-                ptr.append(bool(ok))
-                nowB = B.state_tensors(i)
-                eq = torch.equal(blk, B.blocks[i]) and len(now) == len(nowB)
-                for (pa, ta), (pb, tb) in zip(now, nowB):
-                    eq = eq and pa == pb and ta.shape == tb.shape and torch.equal(ta, tb)
-                same.append(bool(eq))
-            ob.update(vchg=vchg, schg=schg, ptr=ptr, same=same)
-            dparams, oparams, comps, names, lens_ok = A.masked_lists()
-            ob.update(dparams=dparams, oparams=oparams, comps=comps, lens_ok=lens_ok)
-            out["comp_names"] = names
-            d = A.dist
-            ob["dprev"] = [bool(b) for b in (d._previous_global_grad_selector or ())]
-            ob["lsel"] = [bool(b) for b in d.local_grad_selector]
-            ob["oprev"] = [bool(b) for b in (A.sl[A.st.PREVIOUS_GRAD_SELECTOR] or ())]
-            ob["finite"] = all(bool(torch.isfinite(p).all()) for p in A.params)
-            out["steps"].append(ob)
+            for gi, (gv, gb) in enumerate(zip(A.groups, B.groups)):
+                bef = before[gi]
+                ob = {"counter": int(gv.sl[gv.st.STEP].item()), "counterB": int(gb.sl[gb.st.STEP].item())}
+                ob["pchg"] = [not torch.equal(v0, p.detach()) for (v0, _), p in zip(bef["params"], gv.params)]
+                pptr = [p.data_ptr() == ptr0 for (_, ptr0), p in zip(bef["params"], gv.params)]
+                vchg, schg, ptr, same = [], [], [], []
+                for i, blk in enumerate(gv.blocks):
+                    v0, bptr0, sts0 = bef["blocks"][i]
+                    vchg.append(not torch.equal(v0, blk))
+                    now = gv.state_tensors(i)
+                    ok = blk.data_ptr() == bptr0 and pptr[gv.block_owner[i][0]] and len(now) == len(sts0)
+                    flags = []
+                    for (path0, t0, ptr0, id0), (path1, t1) in zip(sts0, now):
+                        ok = ok and path0 == path1 and t1.data_ptr() == ptr0 and id(t1) == id0 and t1.dtype == t0.dtype
+                        flags.append(not (t0.shape == t1.shape and torch.equal(t0, t1)))
+                    schg.append(flags)
+                    ptr.append(bool(ok))
+                    nowB = gb.state_tensors(i)
+                    eq = torch.equal(blk, gb.blocks[i]) and len(now) == len(nowB)
+                    for (pa, ta), (pb, tb) in zip(now, nowB):
+                        eq = eq and pa == pb and ta.shape == tb.shape and ta.dtype == tb.dtype and torch.equal(ta, tb)
+                    same.append(bool(eq))
+                ob.update(vchg=vchg, schg=schg, ptr=ptr, same=same)
+                dparams, oparams, comps, names, lens_ok = gv.masked_lists()
+                ob.update(dparams=dparams, oparams=oparams, comps=comps, lens_ok=lens_ok)
+                out["groups"][gi]["comp_names"] = names
+                d = gv.dist
+                ob["dprev"] = [bool(b) for b in (d._previous_global_grad_selector or ())]
+                ob["lsel"] = [bool(b) for b in d.local_grad_selector]
+                ob["oprev"] = [bool(b) for b in (gv.sl[gv.st.PREVIOUS_GRAD_SELECTOR] or ())]
+                ob["finite"] = all(bool(torch.isfinite(p).all()) for p in gv.params) and \
+                    all(bool(torch.isfinite(t1).all()) for i in range(len(gv.blocks)) for _, t1 in gv.state_tensors(i) if t1.is_floating_point())
+                out["groups"][gi]["steps"].append(ob)
+        out["zero_present_grads"] = zero_present
     except Exception as ex:  # a raising step on a valid history is itself a disagreement with the model
         import traceback
         out["error"] = f"{type(ex).__name__}: {ex}"[:300]
@@ -434,42 +513,51 @@ Definition o (c : Z) (dprev lsel oprev : list bool) (dp op : list nat) (comps : 
              (pchg vchg : list bool) (schg : list (list bool)) (ptr same : list bool) : obs_step :=
   {| ob_counter := c; ob_dprev := dprev; ob_lsel := lsel; ob_oprev := oprev; ob_dparams := dp; ob_oparams := op;
      ob_comps := comps; ob_pchg := pchg; ob_vchg := vchg; ob_schg := schg; ob_ptr := ptr; ob_same := same |}.
-Definition both (lay : layout) (focus : list bool) (h : list (list bool)) (obs : list obs_step) : list bool :=
-  [C04_agree lay focus h obs; C04_checkb lay focus h obs].
+Definition both (strict : bool) (lay : layout) (focus : list bool) (h hB : list (list bool)) (obs : list obs_step) : list bool :=
+  [C04_agree_gen strict lay focus h hB obs; C04_checkb lay focus h obs].
 """
 
 
-def coq_case(spec, res) -> str | None:
-    """Coq term (list of two booleans: model agrees, checker accepts) for one case; None if the run raised."""
-    if res["error"] is not None or len(res["steps"]) != len(spec["history"]):
-        return None
-    ncomp = len(res["steps"][0]["comps"]) if res["steps"] else 1
-    nb = sum(res["nbs"])
-    lay = f"{{| l_nbs := {nl(res['nbs'])}; l_dsel := {bl([True] * nb)}; l_nextra := {ncomp - 1} |}}"
+def _numel(sh) -> int:
+    n = 1
+    for d in sh:
+        n *= d
+    return n
+
+
+def coq_case(spec, gres) -> str:
+    """Coq term (list of two booleans: model agrees, checker accepts) for one parameter group of one case."""
+    ncomp = len(gres["steps"][0]["comps"]) if gres["steps"] else 1
+    nb = sum(gres["nbs"])
+    lay = f"{{| l_nbs := {nl(gres['nbs'])}; l_dsel := {bl([True] * nb)}; l_nextra := {ncomp - 1} |}}"
     obs = []
-    for ob in res["steps"]:
+    for ob in gres["steps"]:
         extra_ok = ob["lens_ok"] and ob["counter"] == ob["counterB"]
         ptr = [x and extra_ok for x in ob["ptr"]]   # anything else the model predicts "as expected" is folded into ptr
         obs.append(f"o {coq_Z(ob['counter'])} {bl(ob['dprev'])} {bl(ob['lsel'])} {bl(ob['oprev'])} {nl(ob['dparams'])} {nl(ob['oparams'])} "
                    f"[{';'.join(nl(c) for c in ob['comps'])}] {bl(ob['pchg'])} {bl(ob['vchg'])} "
                    f"[{';'.join(bl(f) for f in ob['schg'])}] {bl(ptr)} {bl(ob['same'])}")
-    h = "[" + ";".join(bl(p) for p in spec["history"]) + "]"
-    return f"both ({lay}) {bl(spec['focus'])} {h} [" + ";\n   ".join(obs) + "]"
+    h = "[" + ";".join(bl(p) for p in gres["history"]) + "]"
+    hb = "[" + ";".join(bl(p) for p in gres["historyB"]) + "]"
+    # a one-element block can stay put by exact cancellation (momentum against the new direction): never strict there
+    strict = spec["strict"] and all(_numel(sh) >= 2 for sh in gres["block_shapes"])
+    return f"both {'T' if strict else 'F'} ({lay}) {bl(gres['focus'])} {h} {hb} [" + ";\n   ".join(obs) + "]"
+
+
+SPEC_KEYS = ("kind", "target", "shapes", "groups", "group_lrs", "precond", "graft", "start", "freq", "momentum", "nesterov", "dampening", "beta1", "beta2",
+             "beta3", "wd", "decoupled", "maxdim", "merge", "bias", "lr", "pdtype", "fdtype", "ignored_dims", "inv_root_override", "grad_kind",
+             "seed", "history", "historyB", "focus", "strict", "same_presence_b")
 
 
 def public_spec(spec) -> dict:
-    return {k: spec[k] for k in ("kind", "shapes", "precond", "graft", "start", "momentum", "nesterov", "beta1", "beta2", "wd",
-                                 "decoupled", "maxdim", "merge", "bias", "lr", "seed", "history", "focus")}
+    return {k: spec[k] for k in SPEC_KEYS}
 
 
-def first_bad_step(spec, res) -> str:
+def first_bad_step(spec, gres) -> str:
     """Human-readable description of the first observation that contradicts the property (harness-side, for the report only)."""
-    off = [0]
-    for nbp in res.get("nbs", []):
-        off.append(off[-1] + nbp)
     prev = 0
-    for t, (present, ob) in enumerate(zip(spec["history"], res["steps"])):
-        sel = [present[p] for p, nbp in enumerate(res["nbs"]) for _ in range(nbp)]
+    for t, (present, ob) in enumerate(zip(gres["history"], gres["steps"])):
+        sel = [present[p] for p, nbp in enumerate(gres["nbs"]) for _ in range(nbp)]
         idx = [i for i, b in enumerate(sel) if b]
         for i, b in enumerate(sel):
             if not b and (ob["vchg"][i] or any(ob["schg"][i]) or not ob["ptr"][i]):
@@ -481,16 +569,109 @@ def first_bad_step(spec, res) -> str:
         prev = ob["counter"]
         if any(sel):   # the masked lists are only used when the per-group step runs
             for nm, lst in [("distributor masked params", ob["dparams"]), ("MASKED_BLOCKED_PARAMS", ob["oparams"])] + \
-                           list(zip(res.get("comp_names") or [], ob["comps"])):
+                           list(zip(gres.get("comp_names") or [], ob["comps"])):
                 if lst != idx:
                     return f"step {t + 1}: masked list `{nm}` refers to local blocks {lst}, the selector selects {idx}"
             if ob["lsel"] != sel or ob["oprev"] != sel:
                 return f"step {t + 1}: cached selector {ob['lsel']}/{ob['oprev']} is not the step's selector {sel}"
-        foc = [spec["focus"][p] for p, nbp in enumerate(res["nbs"]) for _ in range(nbp)]
+        foc = [gres["focus"][p] for p, nbp in enumerate(gres["nbs"]) for _ in range(nbp)]
         for i, f in enumerate(foc):
             if f and not ob["same"][i]:
-                return f"step {t + 1}: block {i} differs from the reference run although its own data and gradients are identical (cross-wired)"
+                return (f"step {t + 1}: block {i} differs from the reference run although its own data and gradient history are identical "
+                        f"(only the other parameters' data / presence differ): it was updated with something that is not its own")
     return "no harness-side explanation (see checker)"
+
+
+def sels_of(gres):
+    return [tuple(ob["lsel"]) for ob in gres["steps"]]
+
+
+def audit_classes(spec, res) -> set[str]:
+    """Input classes (quantifier audit) this executed case belongs to - measured on what was actually run."""
+    cl = set()
+    n = len(spec["shapes"])
+    hist = spec["history"]
+    if spec["target"]:
+        cl.add("targeted:" + spec["target"])
+    for gres in res["groups"]:
+        h = gres["history"]
+        sels = sels_of(gres)
+        if any(not any(r) for r in h):
+            cl.add("history: all-absent step")
+        if h and not any(h[0]):
+            cl.add("history: first step all-absent")
+        if any(any(r) for r in h) and any(not any(r[k] for r in h) for k in range(len(h[0]))):
+            cl.add("history: a parameter never receives a gradient while others do")
+        if len(sels) > 1 and all(a != b for a, b in zip(sels, sels[1:])):
+            cl.add("history: selector changes at every step")
+        if any(a != b and sum(a) == sum(b) and sum(a) > 0 for a, b in zip(sels, sels[1:])):
+            cl.add("history: same-cardinality different-pattern change")
+        for k in range(len(gres["focus"])):
+            col = [r[k] for r in h]
+            if True in col and col.index(True) >= 4 and sum(1 for r in h[:col.index(True)] if any(r)) >= 3:
+                cl.add("history: first gradient of a parameter after >=3 group steps")
+        if gres["history"] != gres["historyB"]:
+            cl.add("reference run: other parameters follow a different presence history")
+        else:
+            cl.add("reference run: same presence, different data")
+        # blocks
+        off, owners, orders_by_block = 0, {}, gres["block_orders"]
+        for p, nbp in enumerate(gres["nbs"]):
+            for j in range(nbp):
+                owners.setdefault(tuple(gres["block_shapes"][off + j]), set()).add(p)
+            off += nbp
+        if any(len(ps) > 1 for ps in owners.values()):
+            cl.add("layout: equal-shaped blocks in different parameters")
+        if any(nbp > 1 for nbp in gres["nbs"]):
+            cl.add("layout: a parameter split into several blocks")
+        if all(nbp == 1 for nbp in gres["nbs"]):
+            cl.add("layout: no parameter is blocked")
+        if len(set(orders_by_block)) > 1:
+            cl.add("layout: blocks of different tensor order in one group")
+            for sel in sels:
+                for i, b in enumerate(sel):
+                    if b and any((not sel[j]) and orders_by_block[j] != orders_by_block[i] for j in range(i)):
+                        cl.add("layout+history: a present block preceded by an absent block of another order (masked position != local position, per-block metadata differ)")
+        if len(gres["focus"]) == 1:
+            cl.add("layout: group with a single parameter")
+        if any(1 in sh for sh in gres["block_shapes"]):
+            cl.add("layout: block with a size-1 dimension")
+    if len(res["groups"]) > 1:
+        cl.add("groups: two parameter groups in one optimizer" + (" (twin hyperparameters)" if not spec["group_lrs"] else " (different lr)"))
+        for t in range(len(hist)):
+            act = [any(g["history"][t]) for g in res["groups"]]
+            if any(act) and not all(act):
+                cl.add("groups: one group all-absent while the other steps")
+    cl.add(f"dtype: parameter {spec['pdtype']} / factor matrices {spec['fdtype']}")
+    if spec["grad_kind"] != "random":
+        cl.add("gradient values: " + {"zero_param": "present gradient exactly zero (whole parameter)", "zero_block": "present gradient exactly zero on one block",
+                                      "tiny": "magnitude ~1e-5", "diag": "exactly diagonal", "rank1": "rank one", "deadrow": "a dead coordinate (zero row)",
+                                      "constant": "constant", "noncontig": "non-default memory layout (transposed / strided)"}[spec["grad_kind"]])
+    if res.get("zero_present_grads"):
+        cl.add("gradient values: some present gradient was exactly zero in this run")
+    cl.add(f"config: preconditioner {spec['precond']}")
+    cl.add(f"config: grafting {spec['graft']}")
+    if spec["momentum"]:
+        cl.add("config: momentum" + (" + nesterov" if spec["nesterov"] else "") + (" + dampening" if spec["dampening"] else ""))
+    if spec["beta1"]:
+        cl.add("config: beta1 != 0 (filtered gradient state)" + (" with beta3 != beta1" if spec["beta3"] is not None else ""))
+    if spec["wd"]:
+        cl.add("config: weight decay " + ("decoupled" if spec["decoupled"] else "L2"))
+    if spec["freq"] > 1:
+        cl.add("config: precondition_frequency > 1 (steps between two root computations)")
+    if spec["start"] > len(hist):
+        cl.add("config: start_preconditioning_step beyond the history (grafting only)")
+    if spec["lr"] == 0:
+        cl.add("config: lr = 0")
+    if spec["ignored_dims"]:
+        cl.add("config: ignored_dims (blocks with fewer / no Kronecker factors)")
+    if spec["inv_root_override"]:
+        cl.add("config: inv_root_override")
+    if spec["maxdim"] == 1:
+        cl.add("layout: max_preconditioner_dim = 1 (every element its own block)")
+    cl.add("comparison: " + ("strict (present block must move)" if spec["strict"] else "non-strict (present block may stay)"))
+    cl.add("process: two optimizer instances interleaved in one process (module-level / cached state)")
+    return cl
 
 
 def run(ck: Check) -> None:
@@ -498,33 +679,45 @@ def run(ck: Check) -> None:
     ck.coq_props()
     gen_targets.run(ck)          # translator tie: Gallina regenerated from the source + coq/gen/EquivC04.v
     thorough = ck.tier == "thorough"
-    ncases = 3000 if thorough else 208
+    ncases = 3000 if thorough else 176
     specs = []
     for i in range(ncases):
         kind = KIND_CYCLE[i % len(KIND_CYCLE)]
         specs.append(gen_case(ck.rng, i, kind))
+    specs += gen_targeted(ck.rng, len(specs))
+    if thorough:   # the targeted classes again with fresh randomness
+        for _ in range(5):
+            specs += gen_targeted(ck.rng, len(specs))
     with mp.get_context("fork").Pool(16) as pool:
         results = pool.map(impl_run, specs, chunksize=2)
 
-    terms = [coq_case(s, r) for s, r in zip(specs, results)]
-    live = [(s, r, t) for s, r, t in zip(specs, results, terms) if t is not None]
+    raised = [(s, r) for s, r in zip(specs, results) if r["error"] is not None]
+    units = []   # (spec, result, group result) - one Coq comparison per parameter group
+    nonfinite = 0
+    for s, r in zip(specs, results):
+        if r["error"] is not None:
+            continue
+        if not all(ob["finite"] for g in r["groups"] for ob in g["steps"]):
+            nonfinite += 1     # NaN/inf in low-precision storage: bit-identity with the reference run is meaningless there
+            continue
+        for g in r["groups"]:
+            units.append((s, r, g))
     per_file = 8 if not thorough else 48
     sources = {}
-    for fi, chunk in enumerate(common.chunks(live, per_file)):
-        body = " ++\n  ".join(t for _, _, t in chunk)
+    for fi, chunk in enumerate(common.chunks(units, per_file)):
+        body = " ++\n  ".join(coq_case(s, g) for s, _, g in chunk)
         sources[f"c04_{fi:04d}"] = HEADER + "Definition results : list bool :=\n  " + body + ".\nEval vm_compute in show_bools results.\n"
     out = ck.eval_coq(sources) if sources else {}
     flat = "".join(out[f"c04_{fi:04d}"][0] for fi in range(len(sources)))
-    assert len(flat) == 2 * len(live), (len(flat), len(live))
+    assert len(flat) == 2 * len(units), (len(flat), len(units))
 
     disagree, failing = [], []
-    for k, (s, r, _) in enumerate(live):
+    for k, (s, r, g) in enumerate(units):
         agree, chk = flat[2 * k] == "T", flat[2 * k + 1] == "T"
         if not agree:
-            disagree.append((s, r))
+            disagree.append((s, g))
         if not chk:
-            failing.append((s, r))
-    raised = [(s, r) for s, r, t in zip(specs, results, terms) if t is None]
+            failing.append((s, g))
 
     size = lambda sr: (len(sr[0]["shapes"]), len(sr[0]["history"]), sr[0]["idx"])  # noqa: E731
     if raised:
@@ -533,18 +726,18 @@ def run(ck: Check) -> None:
                   {"kind": "step-raised", "spec": public_spec(s), "error": r["error"], "trace": r.get("trace"), "n_cases": len(raised),
                    "predicate": "C04_masked_lists_aligned (a step from a reachable state never fails)"})
     if failing:
-        s, r = min(failing, key=size)
-        ck.report(None, f"C04 violated ({len(failing)} of {len(live)} histories fail C04_checkb); smallest: {len(s['shapes'])} parameters {s['shapes']}, "
-                        f"{s['precond']}/graft={s['graft']}/momentum={s['momentum']}/beta1={s['beta1']}: {first_bad_step(s, r)}",
-                  {"kind": "property-fails", "spec": public_spec(s), "observed": r["steps"], "nbs": r["nbs"], "comp_names": r.get("comp_names"),
-                   "first_bad": first_bad_step(s, r), "n_failing": len(failing),
+        s, g = min(failing, key=size)
+        ck.report(None, f"C04 violated ({len(failing)} of {len(units)} group histories fail C04_checkb); smallest: {len(s['shapes'])} parameters {s['shapes']}, "
+                        f"{s['precond']}/graft={s['graft']}/momentum={s['momentum']}/beta1={s['beta1']}/{s['pdtype']}: {first_bad_step(s, g)}",
+                  {"kind": "property-fails", "spec": public_spec(s), "group": g["pidx"], "observed": g["steps"], "nbs": g["nbs"], "comp_names": g.get("comp_names"),
+                   "first_bad": first_bad_step(s, g), "n_failing": len(failing),
                    "predicate": "C04_checkb (absent blocks untouched, counter rule, masked lists = indices of the selector whenever the group steps, focus blocks = reference run)"})
     elif disagree:
-        s, r = min(disagree, key=size)
-        ck.report(None, f"model/implementation correspondence broken ({len(disagree)} histories) but every observed run still passes C04_checkb; "
-                        f"smallest: {s['shapes']} {s['precond']}/graft={s['graft']}",
-                  {"kind": "correspondence", "broken": "Masks.C04_agree (token model vs implementation observations)", "spec": public_spec(s),
-                   "observed": r["steps"], "nbs": r["nbs"], "comp_names": r.get("comp_names"),
+        s, g = min(disagree, key=size)
+        ck.report(None, f"model/implementation correspondence broken ({len(disagree)} group histories) but every observed run still passes C04_checkb; "
+                        f"smallest: {s['shapes']} {s['precond']}/graft={s['graft']}/{s['pdtype']}/{s['grad_kind']}",
+                  {"kind": "correspondence", "broken": "Masks.C04_agree_gen (token model vs implementation observations)", "spec": public_spec(s), "group": g["pidx"],
+                   "observed": g["steps"], "nbs": g["nbs"], "comp_names": g.get("comp_names"),
                    "theorems_not_transferring": ["C04_mask_cache_inv", "C04_mask_cache_current", "C04_masked_lists_aligned", "C04_absent_block_untouched",
                                                  "C04_all_absent_no_step", "C04_present_block_uses_own_state", "C04_present_block_noninterference",
                                                  "C04_group_run_eq_blockwise"]}, no_failing_input=True)
@@ -556,52 +749,72 @@ def run(ck: Check) -> None:
             h[str(v)] = h.get(str(v), 0) + 1
         return dict(sorted(h.items()))
 
-    def sel_changes(s, r):
-        sels = [tuple(ob["lsel"]) for ob in r["steps"]]
+    def sel_changes(g):
+        sels = sels_of(g)
         return sum(1 for a, b in zip(sels, sels[1:]) if a != b)
 
-    def same_card_changes(s, r):
-        sels = [tuple(ob["lsel"]) for ob in r["steps"]]
+    def same_card_changes(g):
+        sels = sels_of(g)
         return sum(1 for a, b in zip(sels, sels[1:]) if a != b and sum(a) == sum(b) and sum(a) > 0)
 
-    def equal_shaped_across_params(r):
+    def equal_shaped_across_params(g):
         off, owners = 0, {}
-        for p, nbp in enumerate(r["nbs"]):
+        for p, nbp in enumerate(g["nbs"]):
             for j in range(nbp):
-                owners.setdefault(tuple(r["block_shapes"][off + j]), set()).add(p)
+                owners.setdefault(tuple(g["block_shapes"][off + j]), set()).add(p)
             off += nbp
         return any(len(ps) > 1 for ps in owners.values())
 
-    nontriv = {(tuple(r["nbs"]), tuple(map(tuple, s["history"]))) for s, r, _ in live
-               if sel_changes(s, r) >= 1 and equal_shaped_across_params(r) and any(any(ob["lsel"]) for ob in r["steps"])}
-    steps_total = sum(len(r["steps"]) for _, r, _ in live)
-    leftovers = sorted({k for _, r, _ in live for k in r.get("leftover_state", [])})
+    nontriv = {(tuple(g["nbs"]), tuple(map(tuple, g["history"]))) for s, _, g in units
+               if sel_changes(g) >= 1 and equal_shaped_across_params(g) and any(any(ob["lsel"]) for ob in g["steps"])}
+    steps_total = sum(len(g["steps"]) for _, _, g in units)
+    leftovers = sorted({k for _, _, g in units for k in g.get("leftover_state", [])})
     samples = []
-    for s, r, _ in (live[len(live) // 3], live[len(live) // 2], live[-1]) if live else ():
-        samples.append({"spec": public_spec(s), "nbs": r["nbs"], "block_shapes": r["block_shapes"], "masked_lists": r.get("comp_names"),
-                        "counters": [ob["counter"] for ob in r["steps"]], "selectors": ["".join("1" if b else "0" for b in ob["lsel"]) for ob in r["steps"]]})
+    for s, _, g in (units[len(units) // 3], units[len(units) // 2], units[-1]) if units else ():
+        samples.append({"spec": public_spec(s), "group": g["pidx"], "nbs": g["nbs"], "block_shapes": g["block_shapes"], "masked_lists": g.get("comp_names"),
+                        "counters": [ob["counter"] for ob in g["steps"]], "selectors": ["".join("1" if b else "0" for b in ob["lsel"]) for ob in g["steps"]]})
+    audit = {}
+    executed = {id(s) for s, _, _ in units}
+    for s, r in zip(specs, results):
+        if id(s) in executed:
+            for c in audit_classes(s, r):
+                audit[c] = audit.get(c, 0) + 1
     ck.coverage.update({
         "evaluations": len(specs),
+        "group_histories_compared": len(units),
         "optimizer_steps_observed": steps_total,
         "distinct_nontrivial": len(nontriv),
-        "rule": "one evaluation = one (configuration, parameter shapes, presence history, reference run) driven through the real DistributedShampoo and "
-                "compared step by step inside coqc (C04_agree) and judged by C04_checkb; non-trivial = distinct (block layout, history) in which the local "
-                "selector changes at least once, some step has a gradient, and blocks of equal shape belong to different parameters (misalignment would raise no shape error)",
+        "rule": "one evaluation = one (configuration, parameter shapes/groups/dtypes, gradient class, presence history, reference run) driven through the real "
+                "DistributedShampoo; every parameter group of it is compared step by step inside coqc (C04_agree_gen) and judged by C04_checkb; non-trivial = distinct "
+                "(block layout, history) in which the local selector changes at least once, some step has a gradient, and blocks of equal shape belong to different "
+                "parameters (misalignment would raise no shape error)",
         "exhaustive": False,
         "samples": samples,
+        "quantifier_audit": dict(sorted(audit.items())),
+        "not_exercised": {
+            "distributors other than the default Distributor (DDP/FSDP/HSDP/FullyShard/HybridShard)": "their selector caches are the same code path (DistributorInterface) with a non-trivial distributor selector; the model's l_dsel is generic and proved for every selector, the tie for those distributors is made by C06-C08 under the rank simulator",
+            "PT2-compiled step (shampoo_pt2_compile_config)": "tied by C18; mask changes only trigger recompilation there",
+            "parameters on CUDA / eigen_decomp_offload_device": "no GPU in the sandbox",
+            "empty (numel 0) parameters": "DistributedShampoo creates 0-size Kronecker factors; LAPACK eigh on 0x0 input is outside what the property speaks about",
+            "gradient with non-default layout together with use_merge_dims=True": "grad.view(merged_dims) legitimately raises for a transposed gradient on the unchanged tree",
+            "runs whose low-precision state reaches inf/nan": f"{nonfinite} run(s) of this tier dropped from the comparison (bit-identity with the reference run is undefined for NaN)",
+            "value-level comparison of present blocks with the update rule": "C01's job; here a present block is only required to be a function of its own data (reference run) and, in strict mode, to move",
+        },
         "distribution": {
             "pattern_kind": hist(s["kind"] for s in specs), "n_params": hist(len(s["shapes"]) for s in specs),
-            "n_blocks": hist(sum(r["nbs"]) for _, r, _ in live), "steps": hist(len(s["history"]) for s in specs),
+            "n_blocks": hist(sum(g["nbs"]) for _, _, g in units), "steps": hist(len(s["history"]) for s in specs),
             "preconditioner": hist(s["precond"] for s in specs), "grafting": hist(s["graft"] for s in specs),
             "momentum": hist(s["momentum"] for s in specs), "beta1": hist(s["beta1"] for s in specs), "weight_decay": hist(s["wd"] for s in specs),
             "max_preconditioner_dim": hist(s["maxdim"] for s in specs), "start_preconditioning_step": hist(s["start"] for s in specs),
-            "selector_changes_per_history": hist(sel_changes(s, r) for s, r, _ in live),
-            "same_cardinality_selector_changes_per_history": hist(min(same_card_changes(s, r), 5) for s, r, _ in live),
-            "all_absent_steps_per_history": hist(sum(1 for ob in r["steps"] if not any(ob["lsel"])) for _, r, _ in live),
-            "masked_state_lists_observed": hist(len(r["steps"][0]["comps"]) for _, r, _ in live if r["steps"]),
-            "histories_with_equal_shaped_blocks_across_parameters": sum(1 for _, r, _ in live if equal_shaped_across_params(r)),
-            "histories_with_a_multi_block_parameter": sum(1 for _, r, _ in live if any(nbp > 1 for nbp in r["nbs"])),
-            "non_finite_runs": sum(1 for _, r, _ in live if not all(ob["finite"] for ob in r["steps"])),
+            "dtype_pair": hist(s["pdtype"] + "/" + s["fdtype"] for s in specs), "gradient_class": hist(s["grad_kind"] for s in specs),
+            "strict_comparison": hist(s["strict"] for s in specs), "targeted_class": hist(s["target"] for s in specs if s["target"]),
+            "selector_changes_per_history": hist(sel_changes(g) for _, _, g in units),
+            "same_cardinality_selector_changes_per_history": hist(min(same_card_changes(g), 5) for _, _, g in units),
+            "all_absent_steps_per_history": hist(sum(1 for ob in g["steps"] if not any(ob["lsel"])) for _, _, g in units),
+            "masked_state_lists_observed": hist(len(g["steps"][0]["comps"]) for _, _, g in units if g["steps"]),
+            "histories_with_equal_shaped_blocks_across_parameters": sum(1 for _, _, g in units if equal_shaped_across_params(g)),
+            "histories_with_a_multi_block_parameter": sum(1 for _, _, g in units if any(nbp > 1 for nbp in g["nbs"])),
+            "non_finite_runs_dropped": nonfinite,
         },
         "disagreements": len(disagree), "checker_rejections": len(failing), "raised": len(raised),
         "non_block_state_keys": leftovers,
@@ -609,8 +822,9 @@ def run(ck: Check) -> None:
     ck.assumptions += [
         "tensor identity is observed through data_ptr()/id(); a masked list is identified with the local indices of the tensors it holds",
         "state[params[0]]['step'] (the group counter tensor, the only per-parameter state entry that is not a block entry) is group state: it advances when parameter 0 has no gradient but another parameter has one",
-        "default Distributor only (distributor selector all-true); _masked_order_list/_masked_root_list/_masked_preconditioned_dims_selector_list carry no identity and are observed by length only",
-        "precondition_frequency=1 in all configurations so that a present block always moves (the tie compares 'value changed' exactly)",
+        "default Distributor only (distributor selector all-true); _masked_order_list/_masked_root_list/_masked_preconditioned_dims_selector_list carry no identity: compared by value with compress(local list, selector)",
+        "strict comparison ('a present block moves', both directions of changed-flags) only for binary64 runs with generic non-zero gradients and a root computation at every step; otherwise the implementation may change at most what the model changes",
+        "the reference run shares with run A only the focus parameters' data and gradient histories and the moments at which each group steps; in 3 of 4 cases the other parameters also follow another presence history",
     ]
     if leftovers not in ([], ["step"]):
         ck.notes.append(f"unexpected non-block state keys: {leftovers}")
@@ -621,13 +835,20 @@ def replay(obj) -> bool:
     common.assert_repo_imports()
     spec = dict(obj["spec"])
     spec.setdefault("idx", 0)
+    for k, v in DEFAULTS.items():
+        spec.setdefault(k, v)
+    spec.setdefault("groups", None)
+    if spec["groups"] is None:
+        spec["groups"] = [list(range(len(spec["shapes"])))]
+    spec.setdefault("historyB", spec["history"])
     res = impl_run(spec)
     if res["error"]:
         print("implementation raised:", res["error"])
         return True
-    print("blocks per parameter:", res["nbs"], "block shapes:", res["block_shapes"], "masked lists:", res.get("comp_names"))
-    for t, (present, ob) in enumerate(zip(spec["history"], res["steps"])):
-        print(f"step {t + 1} present={present} counter={ob['counter']} lsel={ob['lsel']} params={ob['oparams']} comps={ob['comps']} "
-              f"value_changed={ob['vchg']} state_changed={[any(f) for f in ob['schg']]} same_as_reference={ob['same']}")
-    print("first contradiction:", first_bad_step(spec, res))
+    for g in res["groups"]:
+        print("group of parameters", g["pidx"], "blocks per parameter:", g["nbs"], "block shapes:", g["block_shapes"], "masked lists:", g.get("comp_names"))
+        for t, (present, ob) in enumerate(zip(g["history"], g["steps"])):
+            print(f"step {t + 1} present={present} counter={ob['counter']} lsel={ob['lsel']} params={ob['oparams']} comps={ob['comps']} "
+                  f"value_changed={ob['vchg']} state_changed={[any(f) for f in ob['schg']]} same_as_reference={ob['same']}")
+        print("first contradiction:", first_bad_step(spec, g))
     return True
